@@ -40,3 +40,37 @@ class RecordingStream(object):
     def take(self):
         r, self.reads = self.reads, []
         return r
+
+
+class RawRecordingStream(io.RawIOBase):
+    """the same, as a genuine unbuffered raw stream (io.RawIOBase): what a caller gets from open(p, "rb", buffering=0)
+    or from a device wrapper; every byte the library pulls through it is a fetch"""
+
+    def __init__(self, data):
+        io.RawIOBase.__init__(self)
+        self._b = io.BytesIO(data)
+        self.reads = []
+        self.recording = False
+
+    def readable(self):
+        return True
+
+    def seekable(self):
+        return True
+
+    def readinto(self, buf):
+        pos = self._b.tell()
+        n = self._b.readinto(buf)
+        if self.recording and n:
+            self.reads.append([pos, n])
+        return n
+
+    def seek(self, *a):
+        return self._b.seek(*a)
+
+    def tell(self):
+        return self._b.tell()
+
+    def take(self):
+        r, self.reads = self.reads, []
+        return r
